@@ -42,7 +42,8 @@ Ltac use_all :=
   repeat match goal with
   | I : ?A -> _, H : ?A |- _ => specialize (I H)
   | I : ?x = ?x -> _ |- _ => specialize (I eq_refl)
-  | I : forall o, ?x = PIn o -> _, H : ?x = PIn ?o |- _ => specialize (I _ H)
+  | I : forall o, took ?x = Some o -> _, H : took ?x = Some ?o |- _ => specialize (I _ H)
+  | I : forall o, Some ?n = Some o -> _ |- _ => specialize (I _ eq_refl)
   | I : forall o, ?x = RLoop o -> _, H : ?x = RLoop ?o |- _ => specialize (I _ H)
   | I : forall w p, ?x = PFl w -> _, H : ?x = PFl ?w |- _ => specialize (fun p => I _ p H)
   | I : forall w, ?x = PFl w -> _, H : ?x = PFl ?w |- _ => specialize (I _ H)
